@@ -47,3 +47,69 @@ def match(prop, violation, plan, rec=None):
                 continue
         return f
     return None
+
+
+# --------------------------------------------------------------------------------------
+# F15: fill_in_map resolves let-valued indices/bounds with the *declared* value; a later
+# fill_in_let override has nothing left to act on.
+
+
+def _index_lets(prog):
+    """Names of lets used as a qubit index or alias bound/index anywhere in the program."""
+    names = set()
+    letnames = {n for n, _ in prog["lets"]}
+    for m in prog["maps"]:
+        for k in ("idx", "start", "stop", "step"):
+            v = m.get(k)
+            if isinstance(v, str) and v in letnames:
+                names.add(v)
+    from .progast import all_statements
+
+    for s in all_statements(prog):
+        if s["k"] == "gate":
+            for a in s["args"]:
+                if a[0] == "item" and isinstance(a[2], str) and a[2] in letnames:
+                    names.add(a[2])
+    if isinstance(prog["reg"][1], str):
+        names.add(prog["reg"][1])
+    return names
+
+
+@predicate("f15_map_before_overriding_let")
+def f15(plan, violation, rec):
+    if plan.get("prop") != "C10":
+        return False
+    orders = None
+    for v in (rec or {}).get("violations", []):
+        if v.get("oracle") == "passes_commute" and v.get("orders"):
+            orders = v["orders"]
+            break
+    orders = orders or violation.get("orders")
+    if not orders:
+        return False
+
+    def a_before_l(o):
+        ia = o.find("A")
+        il = o.find("L")
+        return ia >= 0 and (il < 0 or ia < il)
+
+    if a_before_l(orders[0]) == a_before_l(orders[1]):
+        return False
+    prog = plan["texts"][0]["prog"]
+    declared = dict((n, v) for n, v in prog["lets"])
+    changed = {k for k, v in (plan.get("override") or {}).items() if k in declared and declared[k] != v}
+    culprits = changed & _index_lets(prog)
+    if not culprits:
+        return False
+    # the mismatch must disappear once the index lets keep their declared values
+    import copy
+    from . import shrink, engine_session
+
+    p2 = copy.deepcopy(plan)
+    p2["override"] = {k: v for k, v in plan["override"].items() if k not in culprits}
+    p2["tapes"] = None
+    try:
+        r2 = shrink.run_plan(engine_session, p2)
+    except Exception:
+        return False
+    return not any(v["prop"] == "C10" and v["oracle"] == "passes_commute" for v in r2["violations"])
